@@ -1060,11 +1060,17 @@ package parser
 //@        ==> (result0 == nil && expression.Operator == token.NEQ && expression.ComparisonValue == "0" && p.curToken == old(p.curToken))
 //@   ensures [C02:var-op] (result0 == nil && (old(p.curToken.Type) == token.GT || old(p.curToken.Type) == token.GTE || old(p.curToken.Type) == token.LT || old(p.curToken.Type) == token.LTE || old(p.curToken.Type) == token.EQ || old(p.curToken.Type) == token.NEQ))
 //@        ==> (expression.Operator == old(p.curToken.Type) && (old(p.peekToken.Type) == token.VALUE ==> expression.ComparisonValueType == ast.StrictValueComparison))
+// C02, C13: the text compared with under value(...) is one operand of the emitted instruction: a single token, or
+// enclosed in parentheses - also when the single thing written is a constant that stands for several tokens
+//@   ensures [C02,C13:value-operand] (result0 == nil && old(p.peekToken.Type) == token.VALUE && (old(p.curToken.Type) == token.GT || old(p.curToken.Type) == token.GTE || old(p.curToken.Type) == token.LT || old(p.curToken.Type) == token.LTE || old(p.curToken.Type) == token.EQ || old(p.curToken.Type) == token.NEQ))
+//@        ==> (!containsStr(expression.ComparisonValue, " ") || (hasPrefix(expression.ComparisonValue, "( ") && hasSuffix(expression.ComparisonValue, " )")))
 //@   requires expression != nil
 //@   modifies expression.Operator, expression.ComparisonValue, expression.ComparisonValueType
 //@   ensures [C20:stack-balanced] result0 == nil ==> (SameStack(p.breakStack, old(p.breakStack)) && SameStack(p.continueStack, old(p.continueStack)))
 //@   ensures [C18:located] result0 != nil ==> ErrLoc(result0)
 //@   loopinv [C20:stack-balanced-inv] SameStack(p.breakStack, old(p.breakStack)) && SameStack(p.continueStack, old(p.continueStack))
+//@   loop 1
+//@     transition [C13:subst-value-raw] parts == snoc(prev(parts), (indom(p.constants, prev(p.curToken.Literal)) ? p.constants[prev(p.curToken.Literal)] : prev(p.curToken.Literal)))
 //@   loop 2
 //@     transition [C13:subst-value] parts == snoc(prev(parts), (indom(p.constants, prev(p.curToken.Literal)) ? p.constants[prev(p.curToken.Literal)] : prev(p.curToken.Literal)))
 //@ end
